@@ -21,6 +21,11 @@ type c02Args struct {
 	Procs     [][]c02Op `json:"procs"`
 	YieldSeed uint64    `json:"yield_seed"`
 	Tee       bool      `json:"tee"`
+	// Burst > 0: that many tight-race trials instead of one scripted history: the
+	// writers are released together from a spin barrier, each declares its own
+	// type and closes, while a reader polls GetDataType
+	Burst      int      `json:"burst,omitempty"`
+	BurstTypes []string `json:"burst_types,omitempty"`
 }
 
 type c02Ev struct {
@@ -33,7 +38,8 @@ type c02Ev struct {
 }
 
 type c02Out struct {
-	Events []c02Ev `json:"events"`
+	Events []c02Ev   `json:"events"`
+	Trials [][]c02Ev `json:"trials,omitempty"`
 	Sig    uint64  `json:"sig"`
 	Hits   uint64  `json:"hits"`
 }
@@ -46,8 +52,15 @@ func init() {
 			return
 		}
 		var stamp atomic.Int64
-		stream := streams.NewStdin()
 		var out c02Out
+		if a.Burst > 0 {
+			for t := 0; t < a.Burst; t++ {
+				out.Trials = append(out.Trials, c02Burst(&stamp, a.BurstTypes))
+			}
+			r.Out, _ = json.Marshal(out)
+			return
+		}
+		stream := streams.NewStdin()
 		var mu sync.Mutex
 		rec := func(e c02Ev) { mu.Lock(); out.Events = append(out.Events, e); mu.Unlock() }
 
@@ -91,4 +104,66 @@ func init() {
 		verifhook.ConfigureYield(false, 0)
 		r.Out, _ = json.Marshal(out)
 	}
+}
+
+// c02Burst runs one tight-race trial and returns its recorded history
+func c02Burst(stamp *atomic.Int64, types []string) []c02Ev {
+	stream := streams.NewStdin()
+	var evs []c02Ev
+	var mu sync.Mutex
+	rec := func(e c02Ev) { mu.Lock(); evs = append(evs, e); mu.Unlock() }
+	for range types {
+		call := stamp.Add(1)
+		stream.Open()
+		rec(c02Ev{Proc: -1, Op: "open", Call: call, Ret: stamp.Add(1)})
+	}
+	var gate, closed atomic.Int32
+	var wg sync.WaitGroup
+	for i, dt := range types {
+		wg.Add(1)
+		go func(i int, dt string) {
+			defer wg.Done()
+			gate.Add(1)
+			for gate.Load() < int32(len(types))+1 {
+			}
+			e := c02Ev{Proc: i, Op: "set", Arg: dt, Call: stamp.Add(1)}
+			stream.SetDataType(dt)
+			e.Ret = stamp.Add(1)
+			rec(e)
+			e = c02Ev{Proc: i, Op: "close", Call: stamp.Add(1)}
+			stream.Close()
+			e.Ret = stamp.Add(1)
+			rec(e)
+			closed.Add(1)
+		}(i, dt)
+	}
+	wg.Add(1)
+	go func() {
+		defer wg.Done()
+		gate.Add(1)
+		for gate.Load() < int32(len(types))+1 {
+		}
+		last := "\x00"
+		var lastEv c02Ev
+		tail := 0
+		for polls := 0; polls < 20000; polls++ {
+			e := c02Ev{Proc: len(types), Op: "get", Call: stamp.Add(1)}
+			e.Out = stream.GetDataType()
+			e.Ret = stamp.Add(1)
+			if e.Out != last {
+				rec(e)
+				last = e.Out
+			}
+			lastEv = e
+			if closed.Load() == int32(len(types)) {
+				tail++
+				if tail > 20 {
+					break
+				}
+			}
+		}
+		rec(lastEv)
+	}()
+	wg.Wait()
+	return evs
 }
